@@ -9,3 +9,15 @@ func VerifCachePeek(w *WorkerGrp, k Hashed2Int) (interface{}, bool) {
 
 // VerifWorkerOf returns the index of the worker that serves k.
 func VerifWorkerOf(w *WorkerGrp, k Hashed2Int) int { return w.locHash(k) }
+
+// VerifCacheHolders lists the workers whose cache holds an entry for k (only the worker that serves k
+// may ever hold one).
+func VerifCacheHolders(w *WorkerGrp, k Hashed2Int) []int {
+	var o []int
+	for i, wk := range w.ws {
+		if _, ok := wk.ca.Peek(k); ok {
+			o = append(o, i)
+		}
+	}
+	return o
+}
